@@ -23,6 +23,14 @@ fn lit(v: &Value) -> Option<Literal> {
     Some(match v["k"].as_str()? {
         "true" => Literal::True,
         "false" => Literal::False,
+        "u" | "i" if v.get("rel").is_some() => {
+            // bound-relative number of a wide type: max + v or min - v, in i128; None if the Literal cannot hold it
+            let t = v["t"].as_str()?;
+            let (min, max): (i128, i128) = match t { "u32" | "usize" => (0, u32::MAX as i128), "u64" => (0, u64::MAX as i128), "i32" => (i32::MIN as i128, i32::MAX as i128), "i64" => (i64::MIN as i128, i64::MAX as i128), _ => return None };
+            let d = v["v"].as_i64()? as i128;
+            let n = if v["rel"].as_str()? == "max" { max + d } else { min - d };
+            if v["k"].as_str()? == "u" { Literal::NumUnsigned(u64::try_from(n).ok()?, uty(t)) } else { Literal::NumSigned(i64::try_from(n).ok()?, sty(t)) }
+        }
         "u" => { let n = v["v"].as_i64()?; if n < 0 { return None; } Literal::NumUnsigned(n as u64, uty(v["t"].as_str()?)) }
         "i" => Literal::NumSigned(v["v"].as_i64()?, sty(v["t"].as_str()?)),
         "arr" => Literal::Array(v["es"].as_array()?.iter().map(lit).collect::<Option<_>>()?),
